@@ -377,6 +377,18 @@ func MutateTokens(src []byte, vocab []string, r *Rng, steps int) []byte {
 	return Join(toks)
 }
 
+// edgeLiterals are literals at the edge of what the lexer's number, string and symbol
+// paths accept: beyond int64, beyond float64, non-ASCII digits, odd radix and separators.
+var edgeLiterals = []string{
+	"0xFF", "0b1010", "1_000", "-5", "+3", "0o17", "0777",
+	"9223372036854775807", "9223372036854775808", "18446744073709551615", "123456789012345678901234567890",
+	"-9223372036854775809", "1e400", "1.5e-400", "1.7976931348623157e309", "0.0000000000000000000000001",
+	"1__2", "1_", "0x", "0b", "0xZZ", "1.2.3", "1..", "12abc", "\u0661\u0662\u0663", "\uff11\uff12", "3.", ".5",
+	":\"quoted sym\"", ":+", ":[]", ":a?", "?a", "%i[a b]", "%q(x)", "%Q{y}", "%r{z}", "%s(w)", "%x(ls)", "`ls`",
+	"''", "\"\"", "\"\\\"\"", "'\\''", "\"#{}\"", "\"#{\"#{1}\"}\"",
+	"__FILE__", "__LINE__", "$0", "$stdout", "@@cv", "@", "$", "::", "A::B::C", "->(x) { x }", "&:sym", "**opts", "*", "**",
+}
+
 // Vocabulary collects the distinct non-trivial token texts of a corpus.
 func Vocabulary(programs [][]byte) []string {
 	seen := map[string]bool{}
@@ -387,6 +399,9 @@ func Vocabulary(programs [][]byte) []string {
 			}
 			seen[t.Text] = true
 		}
+	}
+	for _, e := range edgeLiterals {
+		seen[e] = true
 	}
 	out := make([]string, 0, len(seen))
 	for s := range seen {
@@ -461,7 +476,7 @@ func (g *Gen) lit() string {
 	case 9:
 		return "%w[" + g.r.Pick([]string{"a b c", "", "x"}) + "]"
 	case 10:
-		return g.r.Pick([]string{"0xFF", "0b1010", "1_000", "-5", "+3"})
+		return g.r.Pick(edgeLiterals)
 	}
 	return "1"
 }
